@@ -202,6 +202,7 @@ func (n4 *node4) deleteChild(ref *nodeRef, b byte) {
 	if i := searchNode4(n4.keys, b); i != -1 {
 		shiftRightClear(&n4.keys, i+1)
 		copy(n4.children[i:], n4.children[i+1:])
+		n4.children[maxNode4-1] = nodeRef{} // the slot vacated by the shift must not keep the removed child alive
 		n4.childrenLen--
 	}
 
@@ -286,6 +287,7 @@ func (n16 *node16) deleteChild(ref *nodeRef, b byte) {
 
 	copy(n16.keys[pos:], n16.keys[pos+1:])
 	copy(n16.children[pos:], n16.children[pos+1:])
+	n16.children[maxNode16-1] = nodeRef{} // the slot vacated by the shift must not keep the removed child alive
 	n16.childrenLen--
 
 	if n16.childrenLen == 3 {
